@@ -9,6 +9,11 @@ Additional subset:
   * `translate_prefix`: the statements of a def body up to and including `val <name> = ...`, returning chosen vals
   * `translate_stream_def`: `def f(i: Int, p: Double): LazyList[Double] = p #:: f(<next index>, <next value>)`
   * `translate_expr_text`: a stand-alone expression over typed free variables
+  * LazyList[Double] values (type Stream = index -> forced element) of the class LeveneHaldane: `s(i)` (s_at), `s.slice(a, b)` (s_slice,
+    a finite List), `s.tail`; on a List: `.takeWhile(_ > c).sum` / `.sum`.  `.takeWhile(_ > c)` is accepted ONLY when `c` is a val
+    whose initialiser is `1.0e-16`, `<expr> * 1.0e-16` or `<expr> * 0.5e-16` (a round-off cut-off); the cut-off expression is still
+    evaluated (it forces a stream element) but the exact model keeps every term (l_cut is the identity): cut-offs are IGNORED.
+  * Double literals with an exponent (`1.0e-16`) as exact fractions; `D_==(a, b)` with two arguments as exact equality.
 Everything else raises TieBroken (fail closed).
 """
 from __future__ import annotations
@@ -22,18 +27,23 @@ from harness.translate.c34_monadic import ScalaFront, ScalaUnsupported, scala_to
 
 class ScalaFrontQ(ScalaFront):
     INT_TYPES = {'Int': 'Int', 'Call': 'Int', 'Boolean': 'Boolean', 'Double': 'Double'}
-    COQ_TYPES = {'Int': 'Z', 'Boolean': 'bool', 'Double': 'Q', 'Ext': 'Ext'}
+    COQ_TYPES = {'Int': 'Z', 'Boolean': 'bool', 'Double': 'Q', 'Ext': 'Ext', 'Stream': 'stream', 'List': 'list Q'}
     check_ret_loosely = True
+    CUTOFF_INIT = re.compile(r'(?:.*\*)?(?:1\.0e-16|0\.5e-16)')      # token text of a round-off cut-off initialiser
 
     def __init__(self, src, fname, externs=None):
         super().__init__(src, fname)
         self.externs: Dict[Tuple[str, int], Tuple[str, List[str], str]] = dict(externs or {})   # (name, arity) -> (coq name, param types, result type)
+        self.cutoff_vals = set()          # vals whose initialiser is a round-off cut-off (see module docstring)
 
     # ---- literals
     def _number(self, tok):
         s = tok[1]
         if re.fullmatch(r'\d+\.\d+[dD]?|\d+[dD]', s):
             f = Fraction(s.rstrip('dD'))
+            return f'(ret ({f.numerator} # {f.denominator})%Q)', 'Double'
+        if re.fullmatch(r'\d+\.\d+[eE][-+]?\d+[dD]?', s):
+            f = Fraction(s.rstrip('dD'))          # exact decimal value of the literal
             return f'(ret ({f.numerator} # {f.denominator})%Q)', 'Double'
         if re.search(r'[eEfFlL.]', s) and not re.fullmatch(r'0[xX][0-9a-fA-F]+', s):
             raise ScalaUnsupported(self._where(), f'literal `{s}` outside the subset')
@@ -75,7 +85,64 @@ class ScalaFrontQ(ScalaFront):
             self.i = save
         return super()._unary()
 
+    # ---- round-off cut-offs: remember which vals are of the form  [<expr> *] 1.0e-16 | 0.5e-16
+    def _stmts(self):
+        self.skip_nl()
+        if self.peek()[1] == 'val' and self.toks[self.i + 1][0] == 'id' and self.toks[self.i + 2][1] == '=':
+            j = self.i + 3
+            text = ''
+            while self.toks[j][0] not in ('nl', 'eof'):
+                text += self.toks[j][1]
+                j += 1
+            name = self.toks[self.i + 1][1]
+            if self.CUTOFF_INIT.fullmatch(text):
+                self.cutoff_vals.add(name)
+            else:
+                self.cutoff_vals.discard(name)
+        return super()._stmts()
+
+    def _suffixes(self, e):
+        text, ty = e
+        while True:
+            if ty == 'Stream' and self.peek()[1] == '(':          # LazyList.apply(i): forces element i
+                pos, named = self._args()
+                if named or len(pos) != 1 or pos[0][1] != 'Int':
+                    raise ScalaUnsupported(self._where(), 'stream index form')
+                text, ty = f'(call2 s_at {text} {pos[0][0]})', 'Double'
+                continue
+            text2, ty2 = super()._suffixes((text, ty))
+            if ty2 == 'Stream' and self.peek()[1] == '(':
+                text, ty = text2, ty2
+                continue
+            return text2, ty2
+
     def _suffix_ext(self, text, ty, member):
+        if ty == 'Stream' and member == 'slice' and self.toks[self.i + 2][1] == '(':
+            self.next()
+            self.next()
+            pos, named = self._args()
+            if named or len(pos) != 2 or pos[0][1] != 'Int' or pos[1][1] != 'Int':
+                raise ScalaUnsupported(self._where(), '.slice(from, until) form')
+            return f'(call3 s_slice {text} {pos[0][0]} {pos[1][0]})', 'List'
+        if ty == 'Stream' and member == 'tail' and self.toks[self.i + 2][1] != '(':
+            self.next()
+            self.next()
+            return f'(lift1 s_tail {text})', 'Stream'
+        if ty == 'List' and member == 'sum' and self.toks[self.i + 2][1] != '(':
+            self.next()
+            self.next()
+            return f'(lift1 qsum {text})', 'Double'
+        if ty == 'List' and member == 'takeWhile':
+            self.next()
+            self.next()
+            t = [self.toks[self.i + k][1] for k in range(5)]
+            if t[0] != '(' or t[1] != '_' or t[2] != '>' or t[4] != ')' or self.env.get(t[3]) != 'Double':
+                raise ScalaUnsupported(self._where(), '.takeWhile(...) is only supported as .takeWhile(_ > <Double val>)')
+            if t[3] not in self.cutoff_vals:
+                raise ScalaUnsupported(self._where(), f'.takeWhile(_ > {t[3]}): `{t[3]}` is not a round-off cut-off ([<expr> *] 1.0e-16 | 0.5e-16); '
+                                       'the exact model cannot ignore it')
+            self.i += 5
+            return f'(lift2 l_cut (ret {t[3]}) {text})', 'List'
         if ty == 'Int' and member == 'toDouble':
             self.next()
             self.next()
@@ -215,7 +282,8 @@ class ScalaFrontQ(ScalaFront):
             self.cur_obj = cur_obj
             self.env = dict(env)
             self.paren = 1          # newlines never terminate a stand-alone expression
-            e = self._expr()
+            self.cutoff_vals = set()
+            e = self._body() if self.peek(True)[1] == '{' else self._expr()
             if self.peek(True)[0] != 'eof':
                 raise ScalaUnsupported(self.fname, f'trailing tokens after expression `{text[:60]}`')
             return e
